@@ -226,9 +226,10 @@ def kani_command(job: Job, target_dir: str, playback: bool = False):
     return cmd
 
 
-def kani_env(job: Job):
+def kani_env(job: Job, playback: bool = False):
     env = common.base_env()
-    env["RUSTFLAGS"] = "--cfg gecs_verif"
+    # playback re-runs build a trace per failing check AND per satisfied cover: drop the covers there
+    env["RUSTFLAGS"] = "--cfg gecs_verif" + (" --cfg verif_nocover" if playback else "")
     if not job.debug_assertions:
         env["CARGO_PROFILE_DEV_DEBUG_ASSERTIONS"] = "false"
     else:
@@ -238,10 +239,10 @@ def kani_env(job: Job):
 
 def run_job(job: Job, target_dir: str, log_path: str, playback: bool = False) -> KaniResult:
     cmd = kani_command(job, target_dir, playback)
-    shell = "ulimit -v %d; exec %s" % (job.mem_kb, " ".join("'%s'" % c for c in cmd))
+    shell = "ulimit -v %d; exec %s" % (job.mem_kb * (2 if playback else 1), " ".join("'%s'" % c for c in cmd))
     t0 = time.time()
     with open(log_path, "w") as lf:
-        p = subprocess.Popen(["bash", "-c", shell], cwd=common.KANI_CRATE, env=kani_env(job),
+        p = subprocess.Popen(["bash", "-c", shell], cwd=common.KANI_CRATE, env=kani_env(job, playback),
                              stdout=lf, stderr=subprocess.STDOUT, start_new_session=True)
         common.register_child(p)
         timed_out = False
